@@ -973,11 +973,19 @@ def ast_tags(tree, text, lines):
         if isinstance(n, ast.ClassDef):
             if any(contains(b, ast.NamedExpr) for b in n.bases + [k.value for k in n.keywords]):
                 t.add("classarg-walrus")
-            if any(contains(d, (ast.ListComp, ast.SetComp, ast.DictComp, ast.GeneratorExp)) for d in n.decorator_list):
-                t.add("classdeco-comp")
+            hdr = n.decorator_list + n.bases + [k.value for k in n.keywords]
+            if any(contains(d, (ast.ListComp, ast.SetComp, ast.DictComp, ast.GeneratorExp)) for d in hdr):
+                t.add("classheader-comp")
+            if n.bases and all(isinstance(b, (ast.Compare, ast.Constant)) or (isinstance(b, ast.UnaryOp) and isinstance(b.op, ast.Not))
+                               for b in n.bases) and not all(isinstance(b, ast.Constant) and isinstance(b.value, (str, bytes, type(None), type(...))) for b in n.bases):
+                t.add("classbases-all-c-typed")
         if isinstance(n, (ast.FunctionDef, ast.AsyncFunctionDef, ast.ClassDef)):
             if any(contains(d, ast.Await) for d in n.decorator_list):
                 t.add("deco-await")
+        if isinstance(n, (ast.Match,)):
+            for case in n.cases:
+                if any(isinstance(x, (ast.FunctionDef, ast.AsyncFunctionDef)) for b in case.body for x in ast.walk(b)):
+                    t.add("def-in-match-case")
         if isinstance(n, ast.AugAssign) and contains(n.target, ast.GeneratorExp):
             t.add("augtarget-genexp")
         if isinstance(n, (ast.Module, ast.ClassDef, ast.FunctionDef, ast.AsyncFunctionDef)) and n.body:
@@ -1074,6 +1082,8 @@ def features(data):
                     typedop = True
                     break
     text = data.decode("utf8", "replace")
+    if text.startswith("\ufeff"):
+        text = text[1:]
     return typedop, sorted(names), sorted(ast_tags(tree, text, text.split("\n")) | text_tags(text))
 
 for i, b in items:
